@@ -42,6 +42,10 @@ def shapes():
         "cplx-1+2j": lambda: Node("LiteralFloat", value=complex(-1.0, 2.0), dtype="DataType.SCALAR"),
         "sym": lambda: Node("Symbol", name="x", dtype="DataType.REAL"),
         "negsym": lambda: Node("Neg", arg=Node("Symbol", name="y", dtype="DataType.REAL"), dtype="DataType.REAL"),
+        # composite operands (index arithmetic): chained offsets must not be folded with the wrong sign
+        "sym+int": lambda: Node("Add", lhs=Node("Symbol", name="p", dtype="DataType.INT"), rhs=Node("LiteralInt", value=2, dtype="DataType.INT"), dtype="DataType.INT"),
+        "sym-int": lambda: Node("Sub", lhs=Node("Symbol", name="q", dtype="DataType.INT"), rhs=Node("LiteralInt", value=2, dtype="DataType.INT"), dtype="DataType.INT"),
+        "int*sym": lambda: Node("Mul", lhs=Node("LiteralInt", value=3, dtype="DataType.INT"), rhs=Node("Symbol", name="r", dtype="DataType.INT"), dtype="DataType.INT"),
         "py0": lambda: 0,
         "py1": lambda: 1,
         "py-1": lambda: -1,
